@@ -88,6 +88,8 @@ def _mk(u: family.Unit, variant: str):
             E.explore(body)
             res.obls, res.paths = E.obls, E.completed_paths
             res.notes = ["messages=%d" % len(msgs)]
+            if concrete is not None:
+                res.replay = {"native_c": getattr(E, "native_runs", [])}
             if not E.obls:
                 res.error = "no obligations generated"
         except CI.CUnsupported as e:
@@ -145,6 +147,8 @@ def _mk_pair(name, s1, m1, s2, m2, project, big):
             E.concrete = concrete
             E.explore(lambda: genc.run_decode(E, prog, m1, big, label="decode-extended", sender=m2, project=project))
             res.obls, res.paths = E.obls, E.completed_paths
+            if concrete is not None:
+                res.replay = {"native_c": getattr(E, "native_runs", [])}
             if not E.obls:
                 res.error = "no obligations generated"
         except CI.CUnsupported as e:
